@@ -32,7 +32,7 @@ def demo_cmd(demo):
             exe = "$CARGO_TARGET_DIR/" + os.path.basename(f)[:-4]
             cmds.append("cargo build -p resolvo_cpp --offline && clang++ -std=c++17 -g -fsanitize=address -Icpp/include "
                         "-I\"$(ls -d $CARGO_TARGET_DIR/debug/build/resolvo_cpp-*/out/generated_include | head -1)\" "
-                        "%s $CARGO_TARGET_DIR/debug/libresolvo_cpp.a -lpthread -ldl -lm -o %s && %s && echo 'test result: ok. 1 passed; 0 failed'" % (f, exe, exe))
+                        "%s $CARGO_TARGET_DIR/debug/libresolvo_cpp.a -lpthread -ldl -lm -o %s && ASAN_OPTIONS=max_free_fill_size=4096 %s && echo 'test result: ok. 1 passed; 0 failed'" % (f, exe, exe))
         elif f.startswith("cpp/"):
             continue
         elif f == "tests/solver.rs":
